@@ -14,6 +14,10 @@ OBLIGATIONS += build_table_obls("c")
 from obl.envunix_common import wfile_obls, rwmisc_obls
 OBLIGATIONS += [o for o in wfile_obls("e")] + [o for o in rwmisc_obls("e")]
 
+# d: every I/O failure inside a compaction is returned, nothing is installed, bg_error is latched
+from obl.dbimpl_compact import compaction_obls
+OBLIGATIONS += [o for o in compaction_obls("d") if o.tier == "quick" and "faults1" in o.name][:3]
+
 META = {
     "level": "model_checking",
     "level_text": "Bounded model checking (CBMC) of the real db_impl.c write, flush and garbage-collection paths with every env/log call below them returning a symbolic error: a failed log append or sync is returned to the writer, inserts nothing and latches the background error so that every later write is refused (the defect F1 was found and repaired here); a failed table build / MANIFEST apply latches the error and leaves the immutable memtable and its log in place; nothing is deleted after a latched error.",
